@@ -171,7 +171,7 @@ def engine_A(name, kinds, nitems, maxp, probe_filter, wit, hashers=("std",), ext
 # Engine B: long seeded random histories over larger universes (sizes the exhaustive scope
 # cannot reach), validated by the same trace specification
 # ------------------------------------------------------------------------------------------------
-def random_history(rng, kind, nkeys, nops, ranks, weights=None, check_every=20, sorted_every=None):
+def random_history(rng, kind, nkeys, nops, ranks, weights=None, check_every=20, sorted_every=None, leak=0):
     if sorted_every is None:
         # a behavioural witness (a clone drained by pops) after every step for the smaller universes
         sorted_every = 1 if nkeys <= 40 else 4
@@ -181,7 +181,7 @@ def random_history(rng, kind, nkeys, nops, ranks, weights=None, check_every=20, 
     peeks = ["peek", "peek_mut"] if kind == "pq" else ["peek_min", "peek_max", "peek_min_mut", "peek_max_mut"]
     w = {"push": 30, "push_increase": 5, "push_decrease": 5, "change_priority": 10, "change_priority_by": 6,
          "remove": 8, "pop": 8, "pop_if": 4, "peek": 4, "get": 3, "retain": 1, "retain_mut": 1, "iter_mut": 1,
-         "extend": 2, "clear": 0.1, "convert2": 0.3}
+         "extend": 2, "clear": 0.1, "drain": 0.1, "convert2": 0.3}
     if weights:
         w.update(weights)
     names = list(w)
@@ -220,7 +220,7 @@ def random_history(rng, kind, nkeys, nops, ranks, weights=None, check_every=20, 
             st = {x: rk() for x in keys if rng.random() < 0.3}
             steps.append({"op": "iter_mut", "n": rng.choice([0, 0, 1, 2, nkeys // 2, nkeys]),
                           "nb": rng.choice([0, 0, 1, 2, nkeys]), "bf": rng.random() < 0.5, "set": st, "wp": rng.randint(0, 1),
-                          "forget": False, "via_ref": rng.random() < 0.3})
+                          "forget": bool(leak) and rng.random() < leak, "via_ref": rng.random() < 0.3})
         elif o == "extend":
             m = rng.randint(0, max(1, nkeys // 2))
             pairs = [[rng.choice(keys), rk()] for _ in range(m)]
@@ -231,6 +231,8 @@ def random_history(rng, kind, nkeys, nops, ranks, weights=None, check_every=20, 
             steps.append(st)
         elif o == "clear":
             steps.append({"op": "clear"})
+        elif o == "drain":
+            steps.append({"op": "drain", "n": rng.choice([0, 1, 2, nkeys])})
         elif o == "convert2":
             steps.append({"op": "convert"})
             steps.append({"op": "convert"})
@@ -245,7 +247,7 @@ def random_history(rng, kind, nkeys, nops, ranks, weights=None, check_every=20, 
 
 
 def engine_B(name, kinds, seed, nhist, nkeys, nops, ranks=None, hashers=("std",), weights=None, wd_name=None,
-             check_every=20):
+             check_every=20, leak=0):
     f = Findings()
     rng = random.Random(seed)
     ranks = ranks or list(range(-3, 8)) + [-1000, 1000]
@@ -254,7 +256,7 @@ def engine_B(name, kinds, seed, nhist, nkeys, nops, ranks=None, hashers=("std",)
         cases = []
         for i in range(nhist):
             nk = nkeys if isinstance(nkeys, int) else rng.choice(nkeys)
-            keys, steps = random_history(rng, kind, nk, nops, ranks, weights, check_every)
+            keys, steps = random_history(rng, kind, nk, nops, ranks, weights, check_every, leak=leak)
             cases.append({"case": [kind, "B", seed, i], "kind": kind, "hasher": hashers[i % len(hashers)],
                           "universe": keys, "steps": steps, "probes": [], "wit": []})
         f.samples.append({"engine": "B", "kind": kind, "seed": seed, "keys": len(cases[0]["universe"]),
@@ -288,29 +290,35 @@ def is_fwd(kind, it):
     return machine_of(kind, it) == "fwd"
 
 
-def engine_C(name, kinds, iters, sizes, depth, adaptors=True, forget=True, wd_name=None, hashers=("std",)):
+def engine_C(name, kinds, iters, sizes, depth, adaptors=True, forget=True, wd_name=None, hashers=("std",), xdepth=None):
     f = Findings()
     wd = vlib.workdir((wd_name or name) + "_C")
     seqs = {}
+    xseqs = {}
+    xdepth = xdepth or (3 if depth <= 5 else 4)
     predictions = []
     for impl in sorted({machine_of(k, it) for k in kinds for it in iters}):
         for n in sizes:
-            consts = {"N": str(n), "Depth": str(depth), "Impl": vlib.tla_str(impl), "Emit": "TRUE"}
-            mc = vlib.run_mc("MCIter", consts, ["NoDup", "NoPanic", "Fused", "LenExact", "InRange", "EmitInv"], wd,
-                             view=None, workers=4, extra_cfg="", timeout=900, cont=True)
-            calls = []
-            for line in open(mc["out"]):
-                if line.startswith('<<"CALLS", "'):
-                    calls.append(json.loads(vlib.unescape_tla(line.strip()[len('<<"CALLS", "'):-3]))["calls"])
-            seqs[(impl, n)] = calls
-            f.stats["states"] += mc["distinct"]
-            f.stats["transitions"] += mc["generated"]
-            viol = sorted(set(mc["violated"]))
-            if viol:
-                predictions.append((impl, n, viol))
-            f.stats["engines"].append({"engine": "C", "machine": impl, "n": n, "depth": depth,
-                                       "call_sequences": len(calls), "states": mc["distinct"],
-                                       "contract_violated_by_machine": viol})
+            # base alphabet (next, next_back, len, size_hint) to `depth`; then the extended alphabet (+ nth, nth_back,
+            # last, count, fold, rfold) to `xdepth`, of which only the sequences using an extended call are emitted
+            for ext, dp in ((False, depth), (True, xdepth)):
+                consts = {"N": str(n), "Depth": str(dp), "Impl": vlib.tla_str(impl), "Emit": "TRUE",
+                          "Ext": "TRUE" if ext else "FALSE"}
+                mc = vlib.run_mc("MCIter", consts, ["NoDup", "NoPanic", "Fused", "LenExact", "InRange", "PosExact", "EmitInv"],
+                                 wd, view=None, workers=4, extra_cfg="", timeout=900, cont=True)
+                calls = []
+                for line in open(mc["out"]):
+                    if line.startswith('<<"CALLS", "'):
+                        calls.append(json.loads(vlib.unescape_tla(line.strip()[len('<<"CALLS", "'):-3]))["calls"])
+                (xseqs if ext else seqs)[(impl, n)] = calls
+                f.stats["states"] += mc["distinct"]
+                f.stats["transitions"] += mc["generated"]
+                viol = sorted(set(mc["violated"]))
+                if viol:
+                    predictions.append((impl, n, viol))
+                f.stats["engines"].append({"engine": "C", "machine": impl, "n": n, "depth": dp, "extended_alphabet": ext,
+                                           "call_sequences": len(calls), "states": mc["distinct"],
+                                           "contract_violated_by_machine": viol})
     for impl, n, viol in predictions:
         log("[C] MODEL-PREDICTION: cursor machine '%s' (n=%d) violates %s in the model; the verdict comes from the "
             "replay on the real iterators below" % (impl, n, viol))
@@ -350,8 +358,12 @@ def engine_C(name, kinds, iters, sizes, depth, adaptors=True, forget=True, wd_na
                             fin = 6 if (ci // 3) % 2 == 0 else 7
                             probes.append([{"op": opn, "it": it, "calls": list(cs[:j + 1]) + [fin, 2, 0, 0]}])
                     # last() / count() / nth after every consumed prefix (from the front, and from the back where offered)
+                    # the model's sequences over the extended alphabet ([code, k] pairs), padded with next calls
+                    for cs in xseqs[(impl, n)]:
+                        probes.append([{"op": opn, "it": it, "calls": [list(c) for c in cs] + [3, 0, 0]}])
+                    # (8 fold, 9 rfold, 10 for_each: internal iteration, which must agree with stepping)
                     for m in range(0, n + 1):
-                        for fin in ([6], [7], [[4, 0]], [[4, 1]], [[4, n]]):
+                        for fin in ([6], [7], [[4, 0]], [[4, 1]], [[4, n]], [8], [10]) + (() if is_fwd(kind, it) else ([9],)):
                             probes.append([{"op": opn, "it": it, "calls": [0] * m + fin + [3, 0, 0]}])
                             if not is_fwd(kind, it) and m > 0:
                                 probes.append([{"op": opn, "it": it, "calls": [1] * m + fin + [3, 0, 0]}])
@@ -368,9 +380,10 @@ def engine_C(name, kinds, iters, sizes, depth, adaptors=True, forget=True, wd_na
                             for k in sorted({0, 1, n, n + 1}):
                                 if ad in ("enumerate", "zip", "peekable", "fuse", "chain", "rev") and k != 0:
                                     continue
-                                for cs in ([2], [3], [0, 2, 3], [1, 2, 3, 0], [2, 0, 0, 2]):
-                                    if is_fwd(kind, it) and (1 in cs or 2 in cs):
-                                        cs = [c for c in cs if c in (0, 3)] or [3]
+                                for cs in ([2], [3], [0, 2, 3], [1, 2, 3, 0], [2, 0, 0, 2],
+                                           [6], [7], [8], [9], [10], [0, 9], [1, 8], [1, 6], [0, 1, 7]):
+                                    if is_fwd(kind, it) and (1 in cs or 2 in cs or 9 in cs):
+                                        cs = [c for c in cs if c not in (1, 2, 9)] or [3]
                                     probes.append([{"op": opn, "it": it, "adapt": ad, "k": k, "calls": cs + [0] * (n + 2)}])
                 nprobe += len(probes)
                 for h in hashers:
@@ -379,7 +392,7 @@ def engine_C(name, kinds, iters, sizes, depth, adaptors=True, forget=True, wd_na
                         cases.append({"case": [kind, h, n, pat, j], "kind": kind, "hasher": h, "universe": keyset(n) + ["z"],
                                       "steps": steps, "probes": probes[j:j + 400], "wit": []})
     f.samples.append({"engine": "C", "example_probe": cases[-1]["probes"][0] if cases and cases[-1]["probes"] else None,
-                      "call_codes": "0 next, 1 next_back, 2 len, 3 size_hint"})
+                      "call_codes": "0 next, 1 next_back, 2 len, 3 size_hint, 4 nth, 5 nth_back, 6 last, 7 count, 8 fold, 9 rfold, 10 for_each"})
     replay_and_validate(cases, wd, "C", f)
     return f
 
